@@ -1,5 +1,6 @@
 import JominiModel.Proofs.BinTapeItems
 import JominiModel.Proofs.BinTapeInv
+import JominiModel.Proofs.BinTapePayload
 /-
 C06 (binary half) — the theorems to be re-exported by `Props/C06.lean`.
 `WfBinTape` (Proofs/BinTapeItems.lean) is the declarative predicate, `wfBinTape` (Model/BinTape.lean)
@@ -43,6 +44,69 @@ whenever either parser accepts, on any input whatsoever, the tape is structurall
 theorem C06_bin_inv (opt : Bool) (data : Bytes) (toks : Tape) (h : parse opt data = .ok toks) :
     WfBinTape toks :=
   parse_wf opt data toks h
+
+/-- **Payload clause.**  Whenever either parser accepts, on any input whatsoever, every token of the
+tape is structural (`Array` / `Object` / `End` / `MixedContainer`) or is the decoding of the lexeme
+that stands at some offset `off` of the input (`LexTok (data.drop off) x`: the 16-bit id of the
+token's binary type at `off`, then its payload): for `Quoted` / `Unquoted` the scalar *is* the slice
+`data[off+4 .. off+4+len)`, for `U32/I32/U64/I64` the value is the little-endian reading of
+`data[off+2 ..)`, for `F32/F64` the bytes themselves, `Bool` the byte `≠ 0`, `Token` the id itself,
+`Rgb` the `{ U32 r U32 g U32 b [U32 a] }` block behind the marker, `Equal` an `=` lexeme
+(byte-level readings: `LexTok.u32_bytes`, `LexTok.quoted_bytes`, … in Proofs/BinTapePayload.lean).
+The list model carries no positions, so the offset is existential rather than recorded. -/
+theorem C06_bin_payloads (opt : Bool) (data : Bytes) (toks : Tape) (h : parse opt data = .ok toks) :
+    ∀ x ∈ toks, x.isPlain = false ∨ x = .mixed ∨ ∃ off, off ≤ data.length ∧ LexTok (data.drop off) x :=
+  parse_sourced opt data toks h
+
+/-- the clause spelt out for the two shapes of payload: strings are slices of the input, numbers
+are the little-endian reading of the input bytes behind their id -/
+theorem C06_bin_payload_bytes (opt : Bool) (data : Bytes) (toks : Tape) (h : parse opt data = .ok toks) :
+    (∀ s, (BTok.quoted s ∈ toks ∨ BTok.unquoted s ∈ toks) →
+      ∃ off, off ≤ data.length ∧ s = (data.drop (off + 4)).take s.length) ∧
+    (∀ v, BTok.u32 v ∈ toks → ∃ off, off + 6 ≤ data.length ∧ v = leNat ((data.drop (off + 2)).take 4)) ∧
+    (∀ v, BTok.i32 v ∈ toks → ∃ off, off + 6 ≤ data.length ∧ v = toSigned 32 (leNat ((data.drop (off + 2)).take 4))) ∧
+    (∀ v, BTok.u64 v ∈ toks → ∃ off, off + 10 ≤ data.length ∧ v = leNat ((data.drop (off + 2)).take 8)) ∧
+    (∀ v, BTok.i64 v ∈ toks → ∃ off, off + 10 ≤ data.length ∧ v = toSigned 64 (leNat ((data.drop (off + 2)).take 8))) ∧
+    (∀ b, BTok.f32 b ∈ toks → ∃ off, off + 6 ≤ data.length ∧ b = (data.drop (off + 2)).take 4) ∧
+    (∀ b, BTok.f64 b ∈ toks → ∃ off, off + 10 ≤ data.length ∧ b = (data.drop (off + 2)).take 8) := by
+  have hs := parse_sourced opt data toks h
+  have get : ∀ x ∈ toks, x.isPlain = true → x ≠ .mixed → ∃ off, off ≤ data.length ∧ LexTok (data.drop off) x := by
+    intro x hx hp hm
+    rcases hs x hx with h1 | h1 | h1
+    · rw [hp] at h1; cases h1
+    · exact absurd h1 hm
+    · exact h1
+  refine ⟨?_, ?_, ?_, ?_, ?_, ?_, ?_⟩
+  · intro s hq
+    rcases hq with hq | hq
+    · obtain ⟨off, ho, hl⟩ := get _ hq rfl (by simp)
+      exact ⟨off, ho, by have := hl.quoted_bytes; simpa [List.drop_drop, Nat.add_comm] using this⟩
+    · obtain ⟨off, ho, hl⟩ := get _ hq rfl (by simp)
+      exact ⟨off, ho, by have := hl.unquoted_bytes; simpa [List.drop_drop, Nat.add_comm] using this⟩
+  · intro v hv
+    obtain ⟨off, ho, hl⟩ := get _ hv rfl (by simp)
+    obtain ⟨h1, h2⟩ := hl.u32_bytes
+    exact ⟨off, by simp at h2; omega, by simpa [List.drop_drop, Nat.add_comm] using h1⟩
+  · intro v hv
+    obtain ⟨off, ho, hl⟩ := get _ hv rfl (by simp)
+    obtain ⟨h1, h2⟩ := hl.i32_bytes
+    exact ⟨off, by simp at h2; omega, by simpa [List.drop_drop, Nat.add_comm] using h1⟩
+  · intro v hv
+    obtain ⟨off, ho, hl⟩ := get _ hv rfl (by simp)
+    obtain ⟨h1, h2⟩ := hl.u64_bytes
+    exact ⟨off, by simp at h2; omega, by simpa [List.drop_drop, Nat.add_comm] using h1⟩
+  · intro v hv
+    obtain ⟨off, ho, hl⟩ := get _ hv rfl (by simp)
+    obtain ⟨h1, h2⟩ := hl.i64_bytes
+    exact ⟨off, by simp at h2; omega, by simpa [List.drop_drop, Nat.add_comm] using h1⟩
+  · intro v hv
+    obtain ⟨off, ho, hl⟩ := get _ hv rfl (by simp)
+    obtain ⟨h1, h2⟩ := hl.f32_bytes
+    exact ⟨off, by simp at h2; omega, by simpa [List.drop_drop, Nat.add_comm] using h1⟩
+  · intro v hv
+    obtain ⟨off, ho, hl⟩ := get _ hv rfl (by simp)
+    obtain ⟨h1, h2⟩ := hl.f64_bytes
+    exact ⟨off, by simp at h2; omega, by simpa [List.drop_drop, Nat.add_comm] using h1⟩
 
 /-- the three parts of the invariant argument, as separate facts -/
 theorem C06_bin_inv_parts :
